@@ -39,6 +39,13 @@ ALLOWED_AXIOMS = {
 GEN_USERS = {"C03", "C12", "C13", "C16", "C18"}
 
 
+def cover_flags():
+    """development aid (VERIF_COVER=1): build the executors with statement counters for the library's packages"""
+    if os.environ.get("VERIF_COVER") == "1":
+        return ["-cover", "-coverpkg=github.com/hprose/hprose-golang/v3/..."]
+    return []
+
+
 class EnvError(Exception):
     """The environment (not the property) is broken: toolchain, /repo does not compile..."""
 
@@ -243,6 +250,7 @@ def build_harness(name, race=False):
                 raise EnvError("/repo does not compile: " + e[-3000:])
             _repo_ok["ok"] = True
         cmd = ["go", "build", "-tags", "verif", "-o", out]
+        cmd[2:2] = cover_flags()
         if ALT:
             mod = os.path.join(BUILD, "alt-" + ALT, "go.mod")
             open(mod, "w").write(open(os.path.join(hd, "go.mod")).read().replace("=> /repo", "=> " + REPO))
